@@ -22,7 +22,7 @@ RULE = (
     "real process on a loopback port; the xandikos.wsgi module in a fresh process behind WellknownRedirector and a SCRIPT_NAME mount} x restarts {0, 1, 3}. A discovery client written for the "
     "harness starts at /.well-known/caldav, /.well-known/carddav and the root URL, follows redirects, reads current-user-principal, then calendar-home-set / addressbook-home-set / resourcetype of "
     "the principal, then lists the home sets with Depth 1, using only hrefs the server returned. It must reach >=1 calendar and >=1 address book; an event and a contact stored before the first "
-    "restart must be served with unchanged ETag and bytes after every restart and the set of collections must not change across restarts. Before the restarts the client also stores an event and a contact directly in the home sets (the collections must stay reachable), creates a collection of one type in a home set, deletes it and creates a collection of the "
+    "restart must be served with unchanged ETag and bytes after every restart and the set of collections must not change across restarts. Before the restarts a bare git calendar and a bare git address book are placed in the home sets (data that did not come through the server; they must be reached with their types), the client stores an event and a contact directly in the home sets (the collections must stay reachable), creates a collection of one type in a home set, deletes it and creates a collection of the "
     "other type at the same URL (both orders): discovery must list what exists now, with its type. Quick: 96 configurations (all with >=1 restart) sampled with the seed; "
     "thorough: all 288. Non-trivial: non-root prefix or nested principal, with >=1 restart; distinct by configuration."
 )
@@ -381,6 +381,34 @@ def run_config(cfg):
                 if st != 200:
                     return fail("get-after-put-failed", f"GET {u!r} answered {st}")
                 before[u] = (h.get("etag"), b)
+            # user data that did not come through the server: bare git repositories (a pushed or restored
+            # calendar / address book) placed in the home sets must be reached with their types like any other
+            if cfg.get("bare", True):
+                try:
+                    from xandikos.icalendar import ICalendarFile
+                    from xandikos.store.git import BareGitStore
+                    from xandikos.vcard import VCardFile
+
+                    pre = cfg["prefix"].rstrip("/")
+                    for kind, nm, handler, ct, body in (("calendar", "shared", ICalendarFile, "text/calendar", ICS.replace(b"c18-event", b"c18-bare")), ("addressbook", "family", VCardFile, "text/vcard", VCF.replace(b"c18-card", b"c18-bare"))):
+                        home = found[kind][1][0]
+                        rel = urllib.parse.unquote(home[len(pre):] if pre and home.startswith(pre) else home)
+                        fs = os.path.join(data, rel.strip("/"), nm)
+                        if not os.path.exists(fs):
+                            st_ = BareGitStore.create(fs)
+                            st_.load_extra_file_handler(handler)
+                            st_.set_type(kind)
+                            st_.import_one("kept-bare" + (".ics" if kind == "calendar" else ".vcf"), ct, [body])
+                            st_.repo.close()
+                        trace.append(("bare-repository", fs))
+                except Exception as e:
+                    raise RuntimeError(f"harness: could not create bare repositories: {e!r}")
+                now = discover(srv, starts[0], trace)
+                for kind, nm in (("calendar", "shared"), ("addressbook", "family")):
+                    want = found[kind][1][0] + nm + "/"
+                    if want not in now[kind][0]:
+                        return fail("bare-collection-not-reached", f"a bare git {kind} was placed at {want!r} but discovery reaches {now[kind][0]} (other kind: {now['addressbook' if kind == 'calendar' else 'calendar'][0]})")
+                found = now
             # a sloppy client stores an object directly in a home set: whatever the answer, the collections stay reachable
             if cfg.get("stray", True):
                 for kind, nm, ct, body in (("calendar", "stray.ics", "text/calendar", ICS.replace(b"c18-event", b"c18-stray")), ("addressbook", "stray.vcf", "text/vcard", VCF.replace(b"c18-card", b"c18-stray"))):
